@@ -322,6 +322,31 @@ def isolated(k=2):
     return AMesh(_orient(faces, xyz), xyz, False, f"isolated{k}")
 
 
+def archipelago(rng):
+    """a quad patch + far-away isolated triangles + a triangle touching the patch at one corner
+    only (no shared edge), faces in random order: faces WITHOUT neighbours are interleaved with
+    faces that have some"""
+    nx, ny = rng.choice([1, 2, 3]), rng.choice([1, 2])
+    p = patch(nx, ny, lon0=-20.0, lat0=-15.0)
+    xyz = [tuple(v) for v in p.xyz]
+    faces = [list(f) for f in p.faces]
+    for i in range(rng.choice([1, 2, 3])):
+        l0 = 60 + i * 40
+        b = len(xyz)
+        xyz += [_ll(l0, 10 + 5 * i), _ll(l0 + 10, 10 + 5 * i), _ll(l0 + 5, 20 + 5 * i)]
+        faces.append([b, b + 1, b + 2])
+    if rng.random() < 0.7:
+        # corner-touching triangle at node 0 (lon -20, lat -15)
+        b = len(xyz)
+        xyz += [_ll(-30, -25), _ll(-22, -28)]
+        faces.append([0, b, b + 1])
+    xyz = np.array(xyz)
+    order = list(range(len(faces)))
+    rng.shuffle(order)
+    faces = [faces[i] for i in order]
+    return AMesh(_orient(faces, xyz), xyz, False, "archipelago")
+
+
 def random_rotation(rng):
     q = np.array([rng.gauss(0, 1) for _ in range(4)])
     q /= np.linalg.norm(q)
@@ -347,7 +372,7 @@ def zoo(rng, big=False):
     p = patch(rng.choice([1, 2, 3, 4]), rng.choice([1, 2, 3]), lon0=rng.choice([-30, 150, 170, -5]),
               lat0=rng.choice([-20, 40, 70, -80]))
     out += [p, p.split_some(rng), p.split_some(rng).merge_some(rng)]
-    out += [fan(rng.choice([3, 4, 5, 6, 7, 8])), fan(rng.choice([3, 4, 5]), full=False), isolated(rng.choice([1, 2, 3]))]
+    out += [fan(rng.choice([3, 4, 5, 6, 7, 8])), fan(rng.choice([3, 4, 5]), full=False), isolated(rng.choice([1, 2, 3])), archipelago(rng)]
     out.append(cube_sphere(2).drop_faces(rng, 0.4))
     out.append(dual_of(hull(14, rng)).drop_faces(rng, 0.3))
     if big:
